@@ -12,6 +12,7 @@
   unless the guard fires, and the guard can only fire at the target of a reference.
 -/
 import JS.Proofs.NoCrash
+import JS.Proofs.Terminate
 namespace JS.Props.C03
 open JS
 
@@ -155,5 +156,29 @@ theorem entry_points_benign (env : Env) (hre : RegexOk env) (hso : Spec.SetOrder
     rw [hg] at h
     cases es <;> cases stop <;> first | exact h | trivial
 
+
+/-- **termination with references**: a rank certificate suffices. `D` is a world of (base URI in
+    effect, schema object) pairs and `rank` a rank on it (`Terminate.Ranked`, JS.Proofs.Terminate):
+    every schema the evaluator evaluates THE SAME instance against — the members of
+    `allOf`/`anyOf`/`oneOf`, `not`, `if`/`then`/`else`, schema-valued `dependencies`, draft 3 `extends`
+    and the schemas in a draft 3 `type`/`disallow`, and the schema a `$ref` designates
+    (`Spec.designated`) — is a member of strictly smaller rank, and every schema it evaluates a
+    strict part of the instance against (`properties`, `items`, `additionalProperties`, …) is a
+    member again; `R` bounds the ranks. Then, from every resolver state that is faithful to the
+    documents `base` (`Knowledge.Know`: C15's `SameWorld`, one side), the evaluation of ANY instance
+    `i` against a member never runs out of fuel once the fuel is `(i.size + 1) * (R + 1)` — with or
+    without a format checker, under every budget. No assumption on the shape of the schemas is needed
+    (a crash is not a hang). The certificate is a Boolean computation for a finite world
+    (`Terminate.rankOk`, JS.Proofs.TerminateMeta), evaluated by the kernel for the four bundled
+    metaschemas, whose references are cyclic (C11 `metaschema_run_terminates`). -/
+theorem terminates_ranked (env : Env) (hf : Knowledge.StableFetchS env) (impl : FmtImpl) (d : Draft)
+    (fc : Option FormatChecker) (base : List (Str × Json)) (D : Str → Json → Bool)
+    (rank : Str → Json → Nat) (hR : Terminate.Ranked env d base D rank) (R : Nat)
+    (hRb : ∀ top s, D top s = true → rank top s ≤ R)
+    (n : Nat) (i : Json) (top : Str) (s : Json) (hs : D top s = true)
+    (hn : (i.size + 1) * (R + 1) ≤ n) (b : Option Nat) (st : RState)
+    (hk : Knowledge.Know env base st) (htop : st.top = top) :
+    (eval env impl (d.cfg fc) n i s b st).stop ≠ .fuel :=
+  Terminate.eval_not_fuel hf hR R hRb impl fc i top s hs n hn b st hk htop
 
 end JS.Props.C03
